@@ -6,8 +6,9 @@ ids=${*:-$(ls seeded | grep '^C')}
 tmp=out/matrix_new.tsv; : > $tmp
 for m in $ids; do
   p=${m%%-*}
-  tools/run_mutant.sh $m $p quick > out/matrix_$m.line 2>&1
   log=out/mutant_$m.$p.log
+  rm -f $log; : > $log
+  tools/run_mutant.sh $m $p quick > out/matrix_$m.line 2>&1
   rc=$(grep -o 'exit=[0-9]*' out/matrix_$m.line | head -1 | cut -d= -f2)
   nd=$(grep -c '^VIOLATION.*obligation=' $log); nb=$(grep -c '^VIOLATION.*bounded-case=' $log); no=$(grep -c '^OUT-OF-REACH' $log)
   by=""; [ "$nd" -gt 0 ] && by="D"; [ "$nb" -gt 0 ] && by="$by${by:+ }B"; [ "$no" -gt 0 ] && by="$by${by:+ }O"
